@@ -235,6 +235,16 @@ def c05_run(item: dict) -> dict:
                 viol("own-definition-overrides-import", f"raised:{o['raised']}", {"world": ov, "observed": {k: o[k] for k in ('raised', 'msg', 'where')}})
             elif ops_view(o["ok"]) != ops_view(exp["ok"]):
                 viol("own-definition-overrides-import", "ops-differ", {"world": ov})
+    # (c'') a sibling `./x.exps` and a lookup-path `x.exps` are two different imports, both must be read
+    tw = twin_names_world(lib, seeds.stream(run_seed, "twins"))
+    if tw is not None:
+        o = compile_once(tw["vfs"], "/proj/SCRIPT/main.exps", tw["lookup"])
+        res["configs"] += 1
+        res["kinds"]["sibling-and-lookup-file-of-one-name"] = res["kinds"].get("sibling-and-lookup-file-of-one-name", 0) + 1
+        if "raised" in o:
+            viol("sibling-and-lookup-file-of-one-name", f"raised:{o['raised']}", {"world": tw, "observed": {k: o[k] for k in ('raised', 'msg', 'where')}})
+        elif ops_view(o["ok"]) != ref_view:
+            viol("sibling-and-lookup-file-of-one-name", "ops-differ", {"world": tw})
     # (d) worlds edited between compiles on ONE reused compiler: nothing survives from the previous world
     if worlds:
         erng = seeds.stream(run_seed, "edit")
@@ -274,6 +284,24 @@ def override_world(lib: macrolib.Lib, rng: random.Random) -> dict | None:
     own = macrolib.single_file_source(lib, order)
     v.write("/proj/SCRIPT/main.exps", 'import "./lib/clash.exps";\n\n' + own)
     return {"vfs": v.dump(), "clash": clash, "order": order, "expected_src": own}
+
+
+def twin_names_world(lib: macrolib.Lib, rng: random.Random) -> dict | None:
+    """Half of the library in `./part.exps` next to main, the other half in `part.exps` under a lookup path; main imports
+    both (in either order). Callees sit in the lookup file so that no import between the two is needed."""
+    names = lib.order[:]  # callee-first
+    if len(names) < 2:
+        return None
+    cut = rng.randint(1, len(names) - 1)
+    low, high = names[:cut], names[cut:]  # `high` may call `low`
+    v = Vfs("/proj")
+    v.write("/proj/macros/part.exps", macrolib.render_file(lib, low, [], {}, False))
+    v.write("/proj/SCRIPT/part.exps", macrolib.render_file(lib, high, ["part.exps"], {}, False))
+    imps = ['import "./part.exps";', 'import "part.exps";']
+    if rng.random() < 0.5:
+        imps.reverse()
+    v.write("/proj/SCRIPT/main.exps", "\n".join(imps) + "\n\n" + lib.main_body() + "\n")
+    return {"vfs": v.dump(), "lookup": ["/proj/macros"], "import_order": imps}
 
 
 def shadow_world(lib: macrolib.Lib, rng: random.Random, order: list[int]) -> dict:
@@ -570,6 +598,19 @@ def c10_worlds(rng: random.Random) -> list[dict]:
     W("cycle_through_symlink_alias", {M: 'import "./a.exps";\n' + use, "/proj/SCRIPT/a.exps": 'import "/proj/alias/b.exps";\n' + leaf,
                                       "/proj/real/b.exps": 'import "/proj/SCRIPT/a.exps";\nmacro mb() { o(); }\n'},
       links={"/proj/alias": "/proj/real"})
+    # the same cycles with the compiled file, or the lookup path, named through a symlinked directory
+    W("self_import_main_named_through_symlink", {M: 'import "./main.exps";\n' + VALID_MAIN}, main="/proj/S/main.exps", links={"/proj/S": "/proj/SCRIPT"})
+    W("cycle_2_main_named_through_symlink", {M: 'import "./a.exps";\n' + VALID_MAIN, "/proj/SCRIPT/a.exps": 'import "./main.exps";\n' + leaf},
+      main="/proj/S/main.exps", links={"/proj/S": "/proj/SCRIPT"})
+    W("cycle_2_macro_files_main_named_through_symlink", {M: 'import "./a.exps";\n' + use, "/proj/SCRIPT/a.exps": 'import "./b.exps";\n' + leaf,
+                                                         "/proj/SCRIPT/b.exps": 'import "./a.exps";\nmacro other() { o(); }\n'},
+      main="/proj/S/main.exps", links={"/proj/S": "/proj/SCRIPT"})
+    W("cycle_through_symlinked_lookup_path", {M: 'import "a.exps";\n' + use, "/proj/real_macros/a.exps": 'import "b.exps";\n' + leaf,
+                                              "/proj/real_macros/b.exps": 'import "a.exps";\nmacro other() { o(); }\n'},
+      lookup=["/proj/macros_link"], links={"/proj/macros_link": "/proj/real_macros"})
+    W("acyclic_main_named_through_symlink", {M: 'import "./a.exps";\n' + use, "/proj/SCRIPT/a.exps": 'import "./b.exps";\n' + leaf,
+                                             "/proj/SCRIPT/b.exps": "macro other() { o(); }\n"},
+      main="/proj/S/main.exps", links={"/proj/S": "/proj/SCRIPT"}, expect="accept")
     for depth in (0, 1, 2):
         files = {M: 'import "./d1.exps";\n' + use, "/proj/SCRIPT/d1.exps": 'import "./d2.exps";\n' + leaf,
                  "/proj/SCRIPT/d2.exps": "macro m2() { o(); }\n"}
@@ -605,6 +646,9 @@ def c10_worlds(rng: random.Random) -> list[dict]:
         W(f"{nm}@macro_file_depth_1", {M: 'import "./d1.exps";\ndef 0 {\n    ~bad();\n    end;\n}\n',
                                        "/proj/SCRIPT/d1.exps": extra + _wrap(body, "macro")},
           repair={"write": {"/proj/SCRIPT/d1.exps": _wrap("repaired(1);", "macro")}})
+        W(f"{nm}@uncalled_macro_file_depth_2", {M: 'import "./d1.exps";\n' + VALID_MAIN,
+                                                "/proj/SCRIPT/d1.exps": 'import "./deeper/d2.exps";\nmacro unused_d1() {\n    u();\n}\n',
+                                                "/proj/SCRIPT/deeper/d2.exps": extra + _wrap(body, "macro")})
         W(f"{nm}@macro_file_depth_2", {M: 'import "lib/d1.exps";\ndef 0 {\n    ~viad1();\n    end;\n}\n',
                                        "/proj/macros/lib/d1.exps": 'import "../../SCRIPT/d2.exps";\nmacro viad1() {\n    ~bad();\n}\n',
                                        "/proj/SCRIPT/d2.exps": extra + _wrap(body, "macro")}, lookup=["/proj/macros"],
